@@ -344,6 +344,11 @@ class CumReductionBlelloch(ArrayExpr):
         # Phase 1: Compute prefix values (sum/product of each block)
         batches_name = self._name + "-batch"
         for key in product(*map(range, x.numblocks)):
+            if key[axis] == x.numblocks[axis] - 1:
+                # The last block's total is never consumed by a prefix. An unused
+                # task is not harmless: dask infers a graph's outputs from its
+                # leaves when an expression is computed together with a Delayed.
+                continue
             dsk[(batches_name,) + key] = (
                 partial(preop, axis=axis, keepdims=True),
                 (x.name,) + key,
